@@ -34,7 +34,7 @@ Hypothesis HS : ff_solver_ok Df solve_ff A.
 
 Local Notation xf := (soe_xf Df Dp solve_ff A Bf Xp).
 Local Notation x := (soe_x Df Dp solve_ff A Bf Xp).
-Local Notation b := (soe_b tr Df Dp solve_ff A Bf Xp).
+Local Notation b := (soe_b Df Dp solve_ff A Bf Xp).
 
 Let ff := sel_ff SE.
 Let pp := sel_pp SE.
@@ -62,13 +62,9 @@ Proof. by rewrite /soe_x mulrDr HX Dp_xf addr0. Qed.
 Lemma soe_free_state : Df * x = xf.
 Proof. by rewrite /soe_x mulrDr Df_Xp add0r xf_on_f. Qed.
 
-Lemma tr_Afp : tr (soe_Afp Df Dp A) = Dp * tr A * Df.
-Proof. by rewrite /soe_Afp !(trM SL) (sel_trf SE) (sel_trp SE) mulrA. Qed.
-
 Lemma soe_loads : Df * b = Bf.
 Proof.
-  rewrite /soe_b tr_Afp /soe_App !mulrDr HB !mulrA fp !mul0r !addr0.
-  by [].
+  by rewrite /soe_b /soe_Apf /soe_App !mulrDr HB !mulrA fp !mul0r !addr0.
 Qed.
 
 Lemma soe_free_rows : Df * (A * x) = Df * b.
@@ -77,29 +73,22 @@ Proof.
   by rewrite addrC subrK.
 Qed.
 
-Lemma soe_reaction_rows : Dp * b = Dp * tr A * Df * xf + Dp * A * Dp * Xp.
+Lemma soe_reaction_rows : Dp * b = Dp * A * Df * xf + Dp * A * Dp * Xp.
 Proof.
-  rewrite /soe_b tr_Afp /soe_App !mulrDr -{1}HB !mulrA pf !mul0r add0r.
+  rewrite /soe_b /soe_Apf /soe_App !mulrDr -{1}HB !mulrA pf !mul0r add0r.
   by rewrite pp.
 Qed.
 
 Lemma soe_true_reaction : Dp * (A * x) = Dp * A * Df * xf + Dp * A * Dp * Xp.
 Proof. by rewrite /soe_x mulrDr mulrDr -{1}HX -{1}xf_on_f !mulrA addrC. Qed.
 
-Lemma soe_reaction : tr A = A -> Dp * (A * x) = Dp * b.
-Proof. by move=> EA; rewrite soe_true_reaction soe_reaction_rows EA. Qed.
+Lemma soe_reaction : Dp * (A * x) = Dp * b.
+Proof. by rewrite soe_true_reaction soe_reaction_rows. Qed.
 
-Lemma soe_full : tr A = A -> A * x = b.
+(* the pair returned by SystemOfEquations satisfies the FULL system, for every square A *)
+Lemma soe_full : A * x = b.
 Proof.
-  move=> EA.
-  by rewrite (sel_split SE (A * x)) (sel_split SE b) soe_free_rows (soe_reaction EA).
-Qed.
-
-(* what the returned b is for a general matrix: the true reaction needs A[p,f], the code uses A[f,p]^T *)
-Lemma soe_reaction_defect : Dp * (A * x) - Dp * b = Dp * (A - tr A) * Df * xf.
-Proof.
-  rewrite soe_true_reaction soe_reaction_rows opprD addrACA subrr addr0.
-  by rewrite mulrBr !mulrBl.
+  by rewrite (sel_split SE (A * x)) (sel_split SE b) soe_free_rows soe_reaction.
 Qed.
 End SoE.
 
@@ -143,13 +132,12 @@ Proof.
   move=> Hm Hf Em Ef.
   have Exf : xf = - (Y * (Df * A * Dm) * xm).
     have E0 : Df * A * Dm * xm + Df * A * Df * xf = 0.
-      by rewrite -Ef mulrDr mulrDr -{3}Hm -{3}Hf !mulrA.
+      by rewrite -Ef mulrDr mulrDr -{2}Hm -{2}Hf !mulrA.
     apply/eqP; rewrite -addr_eq0 addrC; apply/eqP.
     have -> : xf = Y * (Df * A * Df * xf) by rewrite mulrA Yl Hf.
     by rewrite -mulrA -mulrDr E0 mulr0.
-  rewrite schur_formula mulrBl -Em mulrDr mulrDr -{4}Hm -{4}Hf !mulrA.
-  congr (_ + _).
-  by rewrite {2}Exf mulrN !mulrA.
+  rewrite schur_formula mulrBl -Em mulrDr mulrDr -{3}Hm -Hf Exf !mulrN !mulrA.
+  by [].
 Qed.
 End Schur.
 
